@@ -70,7 +70,7 @@ def main():
         shutil.copy(demo, dst)
         rc_bug, out_bug = sh(["go", "test", "-vet=off", "-count=1", "-run", runre, pkg], cwd=wt)
         os.unlink(dst)
-        rc_suite, out_suite = sh("go test -vet=off -count=1 ./... 2>&1 | grep -v mod_test | grep -c '^FAIL\\|^--- FAIL' ", cwd=wt)
+        rc_suite, out_suite = sh("go test -vet=off -count=1 $(go list ./... | grep -v mod_test) 2>&1 | grep -c '^FAIL\\|^--- FAIL' ", cwd=wt)
         meta["demo"] = {"tests": names, "package": pkg, "clean_tree": "pass" if rc_clean == 0 else "FAIL",
                         "with_change": "fail" if rc_bug != 0 else "PASS(!)", "builds": rc_build == 0,
                         "existing_suite_failures_with_change": out_suite.strip()}
